@@ -233,7 +233,7 @@ class Mapping(BasicMapping):
                 args = args.subs(x,0)
             # ...
             # get constants by subtracting coordinates from list of free symbols
-            constants        = list(set(args.free_symbols) - set(lcoords_general_symbols))
+            constants        = sorted(set(args.free_symbols) - set(lcoords_general_symbols), key=str)
             constants_values = {a.name:Constant(a.name) for a in constants}
             # subs constants as Constant objects instead of Symbol
             constants_values.update( kwargs )
